@@ -46,6 +46,13 @@ def parseReq (s : String) : Option Req := do
     some { site := site.toNat, S := sS, siteCost := sc,
            rep := { surveyed := p, today := td, travel := trav, inProgress := ip ≠ 0 }, T := t,
            wx := { temp := wt, wind := ww, precip := wp } }
+  | [site, sS, p, ip, trav, t, sc, wt, ww, wp, td, miss] =>
+    -- 12th field: which weather values are missing (NaN): 1 temperature, 2 wind, 4 precipitation
+    if site < 0 ∨ miss < 0 then none else
+    some { site := site.toNat, S := sS, siteCost := sc,
+           rep := { surveyed := p, today := td, travel := trav, inProgress := ip ≠ 0 }, T := t,
+           wx := { temp := wt, wind := ww, precip := wp, tempMissing := miss.toNat % 2 = 1,
+                   windMissing := (miss.toNat / 2) % 2 = 1, precipMissing := (miss.toNat / 4) % 2 = 1 } }
   | _ => none
 
 def parseEnv (s : String) : Option Envelope := do
